@@ -687,8 +687,7 @@ func main() {
 	debug.SetGCPercent(800) // tiny live heap, allocation-heavy library calls: fewer collections
 	if f := os.Getenv("C10_PPROF"); f != "" {
 		fh, _ := os.Create(f)
-		pprof.StartCPUProfile(fh)
-		defer pprof.StopCPUProfile()
+		pprof.StartCPUProfile(fh) //nolint:errcheck // stopped explicitly before run.Finish (which exits)
 	}
 	run := evid.New("C10", "exploration")
 	describe(run)
